@@ -1,8 +1,10 @@
 #!/bin/bash
 # Runs, for every seeded change under /verif/seeded, the quick check of the property it breaks
-# (isolated scratch copy, see tools/tryseed.sh). Output: one line per patch.
+# (isolated scratch copies, see tools/tryseed.sh; JOBS at a time). Output: one line per patch.
+# usage: tools/seedmatrix.sh [id-prefix]      e.g. tools/seedmatrix.sh C11
 cd /verif
-for d in seeded/*/; do
+JOBS=${JOBS:-4}
+for d in seeded/${1:-}*/; do
   id=$(basename $d); prop=${id%%-*}
   for p in $d/patch*.diff; do
     checks=$prop
@@ -12,8 +14,15 @@ for d in seeded/*/; do
       C12-2b:*) checks="C01 C12";;
       C07-2a:*) checks="C05 C06";;
       C06-2a:*|C13-2b:*) checks="$prop C05 C06";;
+      C02-3a:*|C08-3b:*) checks="C11 C19";;   # cookie-ring slips: old names (C11), recursive paths (C19)
+      C10-3b:*) checks="C05";;                # control calls block while the overflow error waits
+      C03-3b:*) checks="C03 C19";;            # mkdir -p under a recursive watch: outside every quantifier
     esac
-    res=$(tools/tryseed.sh $p $checks 2>&1 | tr '\n' ' ')
-    echo "$id $(basename $p): $res"
+    echo "$id $p $checks"
   done
+done | xargs -P $JOBS --process-slot-var=SLOT -L 1 bash -c 'id=$0; p=$1; shift; res=$(TRYSEED_SCRATCH=/tmp/tsm-$SLOT tools/tryseed.sh $p "$@" 2>&1 | sort | tr "\n" " "); echo "$id $(basename $p): $res"'
+for s in $(seq 0 $((JOBS-1))); do
+  [ -d /tmp/tsm-$s/repo ] && git -C /repo worktree remove --force /tmp/tsm-$s/repo 2>/dev/null
+  rm -rf /tmp/tsm-$s
 done
+git -C /repo worktree prune
